@@ -82,7 +82,7 @@ func zzSCVerify(c *x509.Certificate, opts x509.VerifyOptions) ([][]*x509.Certifi
 //verif:property C08
 //verif:property C06
 //verif:expect-reach end accepted rejected
-//verif:bound signing and encryption certificate each issued by {the trusted root, an intermediate CA under it, an unknown CA}; the intermediate sent as third certificate or not; configured server name right or wrong; symbolic run: parsing and x509 verification replaced by their contracts over the pools actually passed; natively a real SM2 PKI, real parsing and real x509 verification
+//verif:bound signing and encryption certificate each issued by {the trusted root, an intermediate CA under it, an unknown CA}; the intermediate sent as third certificate or not; configured server name right or wrong; InsecureSkipVerify on / off; application callback VerifyPeerCertificate unset / accepting / refusing; symbolic run: parsing and x509 verification replaced by their contracts over the pools actually passed; natively a real SM2 PKI, real parsing and real x509 verification
 //verif:outside the details of path validation (C10); the rest of the handshake (zzH_c08_client_flow)
 //verif:stub (*github.com/tjfoc/gmsm/gmtls.Conn).readHandshake zzSCReadHandshake
 //verif:stub (*github.com/tjfoc/gmsm/gmtls.Conn).sendAlert zzStubSendAlert08
@@ -159,10 +159,28 @@ func zzH_c08_server_cert() {
 	hs := &clientHandshakeStateGM{c: c, suite: suite,
 		hello:       &clientHelloMsg{vers: VersionGMSSL, random: make([]byte, 32)},
 		serverHello: &serverHelloMsg{vers: VersionGMSSL, random: make([]byte, 32)}}
+	// the application's own verification callback: consulted once the built-in verification
+	// has succeeded (or was switched off), and its refusal is final
+	hasCB, cbOK, skip := vBool("callbackSet"), vBool("callbackAccepts"), vBool("insecureSkipVerify")
+	cfg.InsecureSkipVerify = skip
+	cbCalls, cbArgsOK := 0, false
+	if hasCB {
+		cfg.VerifyPeerCertificate = func(raw [][]byte, vc [][]*x509.Certificate) error {
+			cbCalls++
+			cbArgsOK = len(raw) == len(chain) && &raw[0][0] == &chain[0][0] && (len(vc) > 0) == !skip
+			if !cbOK {
+				return errors.New("zz: application refuses these certificates")
+			}
+			return nil
+		}
+	}
 	_ = hs.doFullHandshake() // always ends with an error: the scripted server hangs up after its Certificate message
 	accepted := len(c.peerCertificates) > 0
 	chains := func(by int) bool { return by == 0 || (by == 1 && sendInter) }
-	want := nameOK && chains(sigBy) && chains(encBy)
+	builtin := skip || (nameOK && chains(sigBy) && chains(encBy))
+	want := builtin && (!hasCB || cbOK)
+	vAssert("callback-consulted-exactly-for-chains-the-library-accepted", !hasCB || (cbCalls == 1) == builtin)
+	vAssert("callback-sees-the-presented-certificates", cbCalls == 0 || cbArgsOK)
 	if accepted {
 		vReach("accepted")
 	} else {
